@@ -10,7 +10,7 @@ namespace C18
 
 /-! ### lookup by name -/
 
-theorem hashPhase_total (t : SymTab) (ht : TabOk t) (hsmall : ∀ h, t.hash = some h → h.size.toNat < 4294967296)
+theorem hashPhase_total (t : SymTab) (ht : TabOk t) (hsmall : ∀ h, t.hash = some h → Small h)
     (name : Bytes) (a : Attrs) : ∃ r, TQ.hashPhase t name a = .ok r := by
   unfold TQ.hashPhase
   cases hh : t.hash with
@@ -31,7 +31,7 @@ theorem hashPhase_total (t : SymTab) (ht : TabOk t) (hsmall : ∀ h, t.hash = so
     · rw [if_neg hc]; exact ⟨_, rfl⟩
 
 /-- `get_symbol(name, …)` : hash phase, then the linear fallback over `get_symbols_num()` entries -/
-theorem getByName_total (t : SymTab) (ht : TabOk t) (hsmall : ∀ h, t.hash = some h → h.size.toNat < 4294967296)
+theorem getByName_total (t : SymTab) (ht : TabOk t) (hsmall : ∀ h, t.hash = some h → Small h)
     (name : Bytes) (a : Attrs) : ∃ r, TQ.getByName t name a = .ok r := by
   unfold TQ.getByName
   obtain ⟨r, hr⟩ := hashPhase_total t ht hsmall name a
